@@ -60,3 +60,45 @@ def c08(c):
            dict(src='c08_weights.cpp', build='clang', shards={'quick': 1, 'thorough': 5}, tiers=('thorough',))])
     for k in ('refinements', 'vectors_checked', 'all_zero_data', 'channels_ratio_judged', 'adaptive_runs', 'run_vectors_checked', 'zero_iterations'):
         c.require(k)
+
+
+@prop('C13',
+      rule="case = one sequence of 0..12 results built with create_result (calls 2..4e9 (float: 1e6), estimates of both signs over "
+           "1e-30..1e30 (float: 1e-6..1e6), relative errors 1e-8..10, results without non-zero calls mixed in) combined with "
+           "weighted_with_variance / weighted_equally / chi_square_dof, checked against long double formulas, against all permutations "
+           "(m<=4) or 6 seeded shuffles, and with the empty results removed; plain_results carrying 1-d and 2-d distributions are combined "
+           "and every bin compared with the separate combination of that bin. non-trivial = >=2 results and the error was well enough "
+           "conditioned to be judged; distinct = hash of the input results.",
+      assumptions=["inputs E_i, S_i are read back through the results' own accessors; sequences whose read-back error is itself ill conditioned (kappa*64*eps > 1%) are rejected",
+                   "output error tolerance scaled by kappa = 1 + E^2/((N-1) S^2) of the (value,error)<->(sum,sumsq) conversion; kappa*64*eps > 5% => error not judged (counted)",
+                   "float inputs restricted so that squares and N*(N-1)*S^2 stay inside the float range"])
+def c13(c):
+    c.std([dict(src='c13_combine.cpp', build='asan', shards={'quick': 4, 'thorough': 5}),
+           dict(src='c13_combine.cpp', build='clang', shards={'quick': 1, 'thorough': 5}, tiers=('thorough',))])
+    for k in ('variance_combinations_judged', 'permutations_checked', 'empty_results_ignored_checked', 'equal_combinations',
+              'chi_square_calls', 'distribution_combinations', 'bins_checked', 'combinations_with_more_than_2^32_calls'):
+        c.require(k)
+
+SHIM = [__import__('os').path.join(__import__('core').VERIF, 'shim')]
+
+
+@prop('C16',
+      rule="(a) hep::discard_before/discard_after on the whole box total 0..512 x world 1..64 x every rank (exhaustive for that box) and on "
+           "seeded (total up to 2^40, world up to 2^16) pairs; (b) mpi_plain / mpi_vegas / mpi_multi_channel on the thread MPI shim for world "
+           "sizes {1,2,3,4,5,7,8,16,33} (thorough: 1..33) with calls lists drawn from {0,1,P-1,P,P+1,2P-1,2P+1,3P+2,P/2,97,100}: the raw stream "
+           "position at every integrand invocation of every rank (counting engine) must tile each iteration contiguously in rank order, "
+           "per-rank counts differ by <=1 and sum to the total, all ranks end at the initial engine advanced by the whole run. "
+           "non-trivial = world>=2 and calls not divisible by world or calls<world; distinct = (integrator, T, world, calls list).",
+      assumptions=["the clause 'symbolically for unbounded integers' cannot be decided by executions; wrap-around of usage*discard beyond 2^64 is not explored",
+                   "per-rank shares are observed (integrand invocations + stream positions), not re-derived from the formula duplicated in the three MPI headers",
+                   "MPI is the in-process thread shim (shim/mpi.h); real mpirun is exercised by C04"],
+      exhaustive=False)
+def c16(c):
+    progs = [dict(src='c16_split.cpp', build='asan', shards={'quick': 4, 'thorough': 8}, extra_inc=SHIM, libs=['-pthread'])]
+    if c.tier == 'thorough':
+        progs.append(dict(src='c16_split.cpp', build='tsan', shards={'quick': 4, 'thorough': 8}, extra_inc=SHIM, libs=['-pthread'],
+                          variants=[('double', ['-DVF_T=double'])]))
+    c.std(progs)
+    c.extra['exhaustive_box'] = 'total 0..512 x world 1..64 x all ranks enumerated completely for discard_before/discard_after'
+    for k in ('triples_checked', 'exhaustive_box_pairs', 'seeded_pairs', 'shim_runs', 'rank_shares_observed', 'shim_collectives'):
+        c.require(k)
